@@ -155,6 +155,8 @@ func rawFields(c *ctx509.Certificate, bare bool) []rawField {
 // Checker applies the laws and records violations.
 type Checker struct {
 	Rep *vh.Report
+	// Exact: inputs come from the harness' own encoder (consistent nesting), so raw ranges are compared with the DER walker's
+	Exact bool
 }
 
 func short(b []byte) string {
@@ -219,38 +221,84 @@ func certLayout(in []byte, bare bool) (m map[string][2]int, ok bool) {
 	return m, true
 }
 
-// RawFidelity checks that the raw fields of c are the exact corresponding sub-slices of buf[base:].
+// tlvLen returns the total length announced by the header at the start of b (0 if there is none).
+func tlvLen(b []byte) int {
+	p, ok := splitTLVs(b)
+	if ok && len(p) == 1 {
+		return len(p[0])
+	}
+	return 0
+}
+
+// RawFidelity checks that the raw fields of c are the exact corresponding sub-slices of buf[base:]:
+// each aliases the input, is exactly one TLV, Raw is the whole object, RawTBSCertificate starts right
+// after Raw's header, and issuer, subject and public key lie inside the TBSCertificate in this order.
+// With exact set (inputs whose nesting is known to be consistent: certificates built by the harness'
+// encoder) the ranges are also compared with the independent DER walker's.
 // orig is the caller's copy of the input (the parser must not have written to buf).
-func (k *Checker) RawFidelity(entry string, orig, buf []byte, base int, c *ctx509.Certificate, bare bool) bool {
+func (k *Checker) RawFidelity(entry string, orig, buf []byte, base int, c *ctx509.Certificate, bare, exact bool) bool {
 	ok := true
-	if !bytes.Equal(orig, buf) {
-		k.violate("raw:input-modified:"+entry, "the parser wrote to its input buffer", entry, orig, nil)
+	bad := func(fp, what string) {
+		k.violate(fp, what, entry, orig, nil)
 		ok = false
 	}
-	layout, haveLayout := certLayout(buf[base:], bare)
+	if !bytes.Equal(orig, buf) {
+		bad("raw:input-modified:"+entry, "the parser wrote to its input buffer")
+	}
+	var layout map[string][2]int
+	if exact {
+		layout, exact = certLayout(buf[base:], bare)
+	}
+	pos := map[string][2]int{}
 	for _, f := range rawFields(c, bare) {
-		if bare && f.name == "Raw" {
-			// a bare TBSCertificate has Raw == RawTBSCertificate == the input
-		}
 		off, in := subSlice(buf, f.b)
 		if !in {
-			k.violate("raw:not-a-subslice:"+entry+":"+f.name, fmt.Sprintf("%s of the parsed certificate is not a sub-slice of the input (len %d)", f.name, len(f.b)), entry, orig, nil)
-			ok = false
+			bad("raw:not-a-subslice:"+entry+":"+f.name, fmt.Sprintf("%s of the parsed certificate is not a sub-slice of the input (len %d)", f.name, len(f.b)))
 			continue
 		}
-		if haveLayout {
+		pos[f.name] = [2]int{off - base, off - base + len(f.b)}
+		if tlvLen(f.b) != len(f.b) {
+			bad("raw:not-one-tlv:"+entry+":"+f.name, fmt.Sprintf("%s (input[%d:%d]) is not exactly one TLV", f.name, off-base, off-base+len(f.b)))
+		}
+		if exact {
 			name := f.name
 			if bare && name == "Raw" {
 				name = "RawTBSCertificate"
 			}
 			want := layout[name]
 			if off-base != want[0] || len(f.b) != want[1] {
-				k.violate("raw:wrong-range:"+entry+":"+f.name, fmt.Sprintf("%s is input[%d:%d], the field occupies input[%d:%d]", f.name, off-base, off-base+len(f.b), want[0], want[0]+want[1]), entry, orig, nil)
-				ok = false
+				bad("raw:wrong-range:"+entry+":"+f.name, fmt.Sprintf("%s is input[%d:%d], the field occupies input[%d:%d]", f.name, off-base, off-base+len(f.b), want[0], want[0]+want[1]))
 			}
 		}
 	}
+	if len(pos) != 5 {
+		return ok
+	}
+	raw, tbs, iss, sub, spki := pos["Raw"], pos["RawTBSCertificate"], pos["RawIssuer"], pos["RawSubject"], pos["RawSubjectPublicKeyInfo"]
+	if raw[0] != 0 {
+		bad("raw:order:"+entry+":Raw", fmt.Sprintf("Raw starts at offset %d of the object", raw[0]))
+	}
+	if bare && tbs != raw {
+		bad("raw:order:"+entry+":RawTBSCertificate", "Raw of a bare TBSCertificate differs from RawTBSCertificate")
+	}
+	if !bare && (tbs[0] != hdrLen(buf[base:]) || tbs[1] > raw[1]) {
+		bad("raw:order:"+entry+":RawTBSCertificate", fmt.Sprintf("RawTBSCertificate input[%d:%d] does not start the content of Raw input[%d:%d]", tbs[0], tbs[1], raw[0], raw[1]))
+	}
+	if !(tbs[0] < iss[0] && iss[1] <= sub[0] && sub[1] == spki[0] && spki[1] <= tbs[1]) {
+		bad("raw:order:"+entry+":fields", fmt.Sprintf("issuer %v, subject %v, public key %v are not consecutive inside the TBSCertificate %v", iss, sub, spki, tbs))
+	}
 	return ok
+}
+
+// hdrLen is the header length of the TLV at the start of b.
+func hdrLen(b []byte) int {
+	if len(b) < 2 {
+		return 0
+	}
+	if b[1]&0x80 == 0 {
+		return 2
+	}
+	return 2 + int(b[1]&0x7f)
 }
 
 // sameCert compares two parses of the same bytes field by field.
@@ -317,7 +365,7 @@ func (k *Checker) Concatenation(in []byte, list Outcome, buf []byte, s *slot) {
 				k.violate("concat:raw-not-consecutive", fmt.Sprintf("certificate %d of ParseCertificates has Raw at offset %d (inside input: %v), expected %d", i, off, inside, pos), "ParseCertificates", in, nil)
 				return
 			}
-			if !k.RawFidelity("ParseCertificates", in, buf, pos, c, false) {
+			if !k.RawFidelity("ParseCertificates", in, buf, pos, c, false, k.Exact) {
 				return
 			}
 			part := in[pos : pos+len(c.Raw)]
@@ -381,7 +429,7 @@ func (k *Checker) Laws(e *Entry, in []byte, s *slot) Outcome {
 	switch e.Name {
 	case "ParseCertificate", "ParseTBSCertificate":
 		if c, _ := o.Obj.(*ctx509.Certificate); c != nil {
-			k.RawFidelity(e.Name, in, buf, 0, c, e.Name == "ParseTBSCertificate")
+			k.RawFidelity(e.Name, in, buf, 0, c, e.Name == "ParseTBSCertificate", k.Exact)
 			if e.Name == "ParseCertificate" {
 				// n = 1 instance of the concatenation law
 				pcs := EntryByName("ParseCertificates")
